@@ -109,7 +109,7 @@ def main():
         f.write('\n')
 
 
-HOOK_COMMITS = []
+HOOK_COMMITS = ['b36ebdd']
 
 if __name__ == '__main__':
     main()
